@@ -43,7 +43,7 @@ if exe is None:
     stop("harness build failed")
 work = ck.mkscratch()
 res = os.path.join(work, "out.json")
-ncases = 30000 if ck.thorough() else 1800
+ncases = 30000 if ck.thorough() else 1500
 rc, out = sh([exe, "-out", res, "-seed", str(ck.seed), "-n", str(ncases)], timeout=3000)
 if rc != 0:
     ck.violation("harness-run", "harness run failed: " + out[-500:], {"log": out[-3000:]}, no_input=True)
@@ -66,23 +66,41 @@ def case_v(c):
     return "(mkCase %s %s %s)" % (c["TreeV"], obs(c["MapV"], c["PatV"], c["Outcome"], c["StateV"]), flip)
 
 
-SHARD = 150
+STRLIT = re.compile(r'"(?:[^"]|"")*"')
+
+
+def intern_strings(body):
+    """Every distinct string literal becomes one Definition (elaborated and compiled once per file)."""
+    table = {}
+
+    def repl(m):
+        lit = m.group(0)
+        if lit not in table:
+            table[lit] = "s_%d" % len(table)
+        return table[lit]
+    body = STRLIT.sub(repl, body)
+    defs = "".join("Definition %s : string := %s.\n" % (n, lit) for lit, n in table.items())
+    return defs, body
+
+
+SHARD = 400
 files, shards = {}, []
 for k in range(0, len(cases), SHARD):
     chunk = cases[k:k + SHARD]
     name = "cases_%03d" % (k // SHARD)
     shards.append((name, k))
+    defs, body = intern_strings(coq_list(["\n " + case_v(c) for c in chunk]))
     files[name] = """From Coq Require Import List String ZArith NArith. Import ListNotations.
 Require Import Verif.Model.C09_Types Verif.Gen.C09_Matcher Verif.Model.C09 Verif.Model.C09_Check.
 Open Scope string_scope.
-Definition cases : list case := %s.
+%sDefinition cases : list case := %s.
 Definition M := Eval vm_compute in mismatches gen_cfg cases.
 Definition V := Eval vm_compute in violations gen_cfg cases.
 Definition I := Eval vm_compute in idx_not_inj cases.
 Print M.
 Print V.
 Print I.
-""" % coq_list(["\n " + case_v(c) for c in chunk])
+""" % (defs, body)
 files["search"] = """Require Import Verif.Model.C09_Types Verif.Gen.C09_Matcher Verif.Model.C09 Verif.Model.C09_Check.
 Definition X := Eval vm_compute in find_cex gen_cfg.
 Print X.
